@@ -16,6 +16,7 @@ import (
 	"strings"
 
 	"github.com/trajectoryjp/spatial_id_go/v4/common/object"
+	"github.com/trajectoryjp/spatial_id_go/v4/detector"
 	"github.com/trajectoryjp/spatial_id_go/v4/integrate"
 	"github.com/trajectoryjp/spatial_id_go/v4/operated"
 	"github.com/trajectoryjp/spatial_id_go/v4/shape"
@@ -183,6 +184,51 @@ func driveBigLists(t *Tracer, r Rng, n int) {
 				}
 				emitLaw(t, "ManyToOne", map[string]any{"fn": "ConvertTileXYZsToExtendedSpatialIDs (copies)", "inputs": len(tiles)},
 					digestList(ts(tiles)), digestList(ts(tiles[:1])), "")
+			}
+		}
+		// overlap of a long list with a single probe that meets exactly ONE of its entries, at positions next to every
+		// plausible batch border (powers of two, round decimal numbers and their halves): the long call must agree
+		// with the disjunction over 700-entry chunks, in both argument orders
+		{
+			L := 140000
+			extL := make([]string, L)
+			spL := make([]string, L)
+			for i := 0; i < L; i++ { // distinct voxels of one zoom: disjoint from each other
+				v := ID{z, x0 + int64(i%400), y0 + int64(i/400), z, f0}
+				extL[i], spL[i] = v.String(), v.Sp()
+			}
+			var pos []int
+			for _, b := range []int{1 << 12, 1 << 14, 1 << 15, 1 << 16, 1 << 17, 10000, 20000, 25000, 50000, 100000, 125000} {
+				for _, d := range []int{-1, 0} {
+					if p := b + d; p >= 0 && p < L {
+						pos = append(pos, p)
+					}
+				}
+			}
+			pos = append(pos, 0, L-1, int(r.In(0, int64(L-1))))
+			r.Shuffle(len(pos), func(a, b int) { pos[a], pos[b] = pos[b], pos[a] })
+			for _, p := range pos[:8] {
+				for form := 0; form < 2; form++ {
+					list, probe := extL, []string{extL[p]}
+					check := func(a, b []string) (bool, error) { return detector.CheckExtendedSpatialIdsArrayOverlap(a, b) }
+					name := "CheckExtendedSpatialIdsArrayOverlap"
+					if form == 1 {
+						list, probe = spL, []string{spL[p]}
+						check = func(a, b []string) (bool, error) { return detector.CheckSpatialIdsArrayOverlap(a, b) }
+						name = "CheckSpatialIdsArrayOverlap"
+					}
+					whole1, e1 := check(list, probe)
+					whole2, e2 := check(probe, list)
+					parts := false
+					var e3 error
+					for i := 0; i < L && e3 == nil; i += 700 {
+						var ok bool
+						ok, e3 = check(list[i:minI2(i+700, L)], probe)
+						parts = parts || ok
+					}
+					emitLaw(t, "BigListIsUnionOfChunks", map[string]any{"fn": name, "entries": L, "probe_at": p},
+						[]string{fmt.Sprint(whole1, e1 != nil), fmt.Sprint(whole2, e2 != nil)}, []string{fmt.Sprint(parts, e3 != nil), fmt.Sprint(parts, e3 != nil)}, "")
+				}
 			}
 		}
 		// point lookup on a long list keeps length and order
